@@ -39,7 +39,25 @@ const (
 // should be terminated immediately.
 type ContextTerminationError struct {
 	message string
+
+	// The hard limit that was hit (if any), and whether that limit was
+	// inherited from an enclosing context rather than set by the terminated
+	// context itself.  In the latter case the enclosing context is terminated
+	// as well when the terminated context is popped (see Thread.CallContext):
+	// otherwise e.g. pcall, which runs its function in a context of its own,
+	// would turn hitting the limit into an ordinary error.
+	resource  limitedResource
+	inherited bool
 }
+
+type limitedResource uint8
+
+const (
+	noResource limitedResource = iota
+	cpuResource
+	memoryResource
+	millisResource
+)
 
 var _ error = ContextTerminationError{}
 
